@@ -795,6 +795,14 @@ func r115(c *Ctx, r *R) {
 // query keys it carries.
 func clientPath(pkg *packages.Package, e ast.Expr) (path string, keys []string, dyn string, ok bool) {
 	e = ast.Unparen(e)
+	// a local that holds the path: its single definition
+	if id, isID := e.(*ast.Ident); isID {
+		if _, isConst := constStr(pkg, e); !isConst {
+			if def := singleDefinition(pkg, id); def != nil {
+				return clientPath(pkg, def)
+			}
+		}
+	}
 	format := ""
 	var args []ast.Expr
 	switch x := e.(type) {
@@ -1023,4 +1031,59 @@ func sameJSONShape(a, b types.Type) bool {
 		return ok && sameJSONShape(x.Key(), y.Key()) && sameJSONShape(x.Elem(), y.Elem())
 	}
 	return types.Identical(a, b)
+}
+
+// singleDefinition: the expression a local variable is defined with, when it
+// is assigned exactly once (`x := expr` / `var x = expr`).
+func singleDefinition(pkg *packages.Package, id *ast.Ident) ast.Expr {
+	obj := pkg.TypesInfo.ObjectOf(id)
+	if obj == nil {
+		return nil
+	}
+	var def ast.Expr
+	n := 0
+	for _, f := range pkg.Syntax {
+		if f.Pos() > obj.Pos() || obj.Pos() > f.End() {
+			continue
+		}
+		ast.Inspect(f, func(nd ast.Node) bool {
+			switch y := nd.(type) {
+			case *ast.AssignStmt:
+				if len(y.Lhs) == len(y.Rhs) {
+					for i, l := range y.Lhs {
+						if lid, ok := l.(*ast.Ident); ok && pkg.TypesInfo.ObjectOf(lid) == obj {
+							def = y.Rhs[i]
+							n++
+						}
+					}
+				} else {
+					for _, l := range y.Lhs {
+						if lid, ok := l.(*ast.Ident); ok && pkg.TypesInfo.ObjectOf(lid) == obj {
+							n += 2
+						}
+					}
+				}
+			case *ast.ValueSpec:
+				for i, nid := range y.Names {
+					if pkg.TypesInfo.ObjectOf(nid) == obj {
+						if i < len(y.Values) {
+							def = y.Values[i]
+							n++
+						}
+					}
+				}
+			case *ast.UnaryExpr:
+				if y.Op == token.AND {
+					if lid, ok := ast.Unparen(y.X).(*ast.Ident); ok && pkg.TypesInfo.ObjectOf(lid) == obj {
+						n += 2 // address taken: may be written elsewhere
+					}
+				}
+			}
+			return true
+		})
+	}
+	if n == 1 {
+		return def
+	}
+	return nil
 }
